@@ -302,7 +302,7 @@ fn c11_step_strings() {
     kani::cover!(true);
 }
 
-// @harness name=c05_datatype_accepts props=C05,C04,C20 kind=complete tier=thorough
+// @harness name=c05_datatype_accepts props=C05,C04,C20 kind=complete tier=thorough features=half
 // the reported data type of an integer item always names a type whose accessor accepts the item
 #[kani::proof]
 fn c05_datatype_accepts() {
